@@ -94,6 +94,18 @@ func c19DestroyFanOut(r *core.Run) {
 			}
 		}
 		r.Check(okRet, "destroy-fan-out", fnDestroyCluster+" propagates errors", site(r, fn.SSA.Pos()), "returns errgroup.Wait()", "a member's failure to destroy is not reported")
+		// a member that could not be told fails the Destroy: inside the fan-out closure the
+		// transport error and the member's reply are handed back to the error group
+		nc := counter{}
+		for _, an := range fn.SSA.AnonFuncs {
+			if len(findInstrs(an, false, callTo(fnRedisProcess))) == 0 {
+				continue
+			}
+			ok := propagatesFailure(r.P, an, callTo(fnRedisProcess)) && propagatesFailure(r.P, an, callNamed("Err"))
+			r.Check(ok, "destroy-fan-out", nc.next(fnDestroyCluster+" a member that cannot be told fails the Destroy"), site(r, an.Pos()),
+				"the send's error and the member's reply are returned to the error group",
+				"a DM.DESTROY that failed on its way to a member (transport error, timeout, error reply) is swallowed: Destroy reports success while that member — alive but unreachable for a moment — keeps its primary and backup fragments, and the keys are readable again")
+		}
 	}
 	if fn := r.Need("destroy-fan-out", fnDestroyLocal); fn != nil {
 		f := fn.SSA
